@@ -1,6 +1,8 @@
 import SupervisorModel.Model.Envelope
 import SupervisorModel.Model.Tick
 import SupervisorModel.Model.Notify
+import SupervisorModel.Generated.Events
+import SupervisorModel.Lemmas.PoolLedger
 /-
   C11 — event notifications tell the truth.  Property theorems only.
   Models: `Sv.Envelope` (header, registry, payload formatters) and `Sv.Tick`; both interpret
@@ -23,6 +25,53 @@ theorem eventname_concrete :
 
 /-- registered names are distinct (a name identifies one type) -/
 theorem registry_names_distinct : (registry.map (·.1)).Nodup := by decide
+
+/-! ### the documented type names
+
+  `eventname_concrete` is relative to the registry regenerated from supervisor/events.py.  The statement's "the
+  concrete event type's name" is a name of docs/events.rst: the table `Sv.Gen.Events.documented` is regenerated from
+  the documentation ("``T`` Event Type" sections with their "*Subtype Of*" lines), independently of the classes. -/
+
+/-- the types docs/events.rst documents and gives no subtype: the concrete types a notification can carry -/
+def documentedConcrete : List String :=
+  (Sv.Gen.Events.documented.map (·.1)).filter fun n => !(Sv.Gen.Events.documented.any fun e => e.2 == some n)
+
+/-- the names in `EventTypes` are exactly the documented type names -/
+theorem registry_names_are_the_documented_ones :
+    (registry.all fun e => (Sv.Gen.Events.documented.map (·.1)).contains e.1) = true ∧
+    (Sv.Gen.Events.documented.all fun e => (registry.map (·.1)).contains e.1) = true := by decide
+
+/-- **eventname_documented**: the `eventname` of every concrete event class is a type name docs/events.rst documents,
+    and one it documents as concrete (no other type is a "*Subtype Of*" it) -/
+theorem eventname_documented :
+    ∀ c ∈ concrete, ∃ nm, getEventNameByType c = some nm ∧ nm ∈ documentedConcrete := by
+  decide
+
+/-- ... and every documented concrete type is the name of exactly one concrete class -/
+theorem documented_concrete_all_named :
+    (documentedConcrete.all fun n => (concrete.filter fun c => getEventNameByType c == some n).length == 1) = true := by
+  decide
+
+/-! ### one notification per event and pool: a rejection concerns the rejecting listener's pool only -/
+
+/-- **rejection_renotifies_own_pool_only**: when a listener gives an event back (FAIL answer, protocol violation,
+    death while BUSY -> `EventRejectedEvent`), every pool is told, but only the pool that owns that listener's process
+    object puts the event back in its queue; every other pool -- whether it is subscribed to the event's type (and
+    has been, or will be, notified of it once) or not subscribed at all, and whatever its listeners are *named* -- is
+    left exactly as it was, so it sends no second notification of that event and no notification of a type it did
+    not ask for.  (`Pool.Static`: distinct pool names, every listener its own process object.) -/
+theorem rejection_renotifies_own_pool_only (w : Pool.W) (hs : Pool.Static w) (pi li e : Nat) (p : Pool.PoolSt)
+    (hp : w.pools[pi]? = some p) (hli : li < p.procs.length) (j : Nat) (hj : j ≠ pi) :
+    (Pool.rejected (Pool.whoOf w pi li) e w).pools[j]? = w.pools[j]? :=
+  Pool.rejected_other _ e w j (fun q hq => (hs.owner pi li p hp hli).2 j hj q hq)
+
+/-- the hypotheses are met by two pools whose listeners have the same names -/
+example : Pool.Static { pools := Pool.assignIds 0 (
+    [{ name := "alpha", bufSize := 3, subs := [Sv.Gen.Events.Cls.PROCESS_GROUP], procs := [Listener.initial, Listener.initial],
+       names := ["listener_00", "listener_01"] },
+     { name := "beta", bufSize := 3, subs := [Sv.Gen.Events.Cls.TICK_60], procs := [Listener.initial, Listener.initial],
+       names := ["listener_00", "listener_01"] }] : List Pool.PoolSt) } :=
+  Pool.static_assignIds _ (by decide)
 
 /-! ### len -/
 
@@ -891,7 +940,7 @@ theorem finish_pids (c : OutDisp.Cfg) (pending : Bytes) (announce : Bool) (pid :
 
 -- non-vacuity: capture and events on; "bye" arrives with the reaping read, is held back for token matching, and is
 -- announced by the flush with the child's pid before the exit
-example : (finish ⟨10, true, false, true, true, false, Sv.Gen.OutDisp.stdout_BEGIN, Sv.Gen.OutDisp.stdout_END⟩
+example : (finish ⟨10, true, false, true, true, false, Sv.Gen.OutDisp.stdout_BEGIN, Sv.Gen.OutDisp.stdout_END, false⟩
     [98, 121, 101] true ⟨4242, some OutDisp.init, []⟩).notes = [.plog 4242 true [98, 121, 101], .state 4242] := by decide
 
 /-! ### PROCESS_STATE notifications carry the values at the moment of the change -/
